@@ -259,6 +259,12 @@ def Scal.IsInterp (s : Scal) : Prop :=
 /-- well-formed scalar of fragment 3: an ordinary scalar, a variable or an interpolated expression. -/
 def Scal.ValidX (s : Scal) : Prop := s.Valid ∨ s.IsVar ∨ s.IsInterp
 
+/-- a parameter name `[[name]`: non-empty, no boundary byte. -/
+def IsParamName (name : Bytes) : Prop := name ≠ [] ∧ ∀ c ∈ name, isBoundary c = false
+
+/-- `[[name]` / `[[!name]` -/
+def paramOpen (isU : Bool) (name : Bytes) : Bytes := 91 :: 91 :: ((if isU then [33] else []) ++ (name ++ [93]))
+
 /-- a run of scalars with their blanks (the array part of a mixed container). -/
 def renderElems : List (Bytes × Scal) → Bytes
   | [] => []
@@ -307,6 +313,11 @@ inductive JFields
   /-- `key op h { … }`: an unquoted scalar `h` directly followed by a non-empty container is the
   header of that container (`rgb { 1 2 3 }`, `hsv { … }`, `LIST { … }`) -/
   | consHdr (g0 : Bytes) (key : Scal) (g1 : Bytes) (op : Op) (gh : Bytes) (h : Scal) (body : JVal) (rest : JFields)
+  /-- parameter block, value form: `[[name] value ]` / `[[!name] value ]` -/
+  | paramVal (g0 : Bytes) (isU : Bool) (name : Bytes) (g1 : Bytes) (val : Scal) (g2 : Bytes) (rest : JFields)
+  /-- parameter block, object form: `[[name] key op value fields… ]` -/
+  | paramObj (g0 : Bytes) (isU : Bool) (name : Bytes) (g1 : Bytes) (key : Scal) (g2 : Bytes) (op : Op)
+      (v : JVal) (inner : JFields) (gc : Bytes) (rest : JFields)
 inductive JVals
   | nil
   | cons (v : JVal) (rest : JVals)
@@ -343,6 +354,11 @@ def jrenderF : JFields → Bytes
   | .ghost g gc rest => g ++ 123 :: (gc ++ 125 :: jrenderF rest)
   | .consHdr g0 k g1 o gh h body rest =>
     g0 ++ (k.text ++ (g1 ++ (o.text ++ (gh ++ (h.text ++ (jrenderV body ++ jrenderF rest))))))
+  | .paramVal g0 isU name g1 val g2 rest =>
+    g0 ++ (paramOpen isU name ++ (g1 ++ (val.text ++ (g2 ++ 93 :: jrenderF rest))))
+  | .paramObj g0 isU name g1 k g2 o v inner gc rest =>
+    g0 ++ (paramOpen isU name ++ (g1 ++ (k.text ++ (g2 ++ (o.text ++ (jrenderV v ++ (jrenderF inner ++
+      (gc ++ 93 :: jrenderF rest))))))))
 def jrenderVs : JVals → Bytes
   | .nil => []
   | .cons v rest => jrenderV v ++ jrenderVs rest
@@ -407,6 +423,14 @@ def JValidF : JFields → Bytes → Prop
     Blank g0 ∧ Blank g1 ∧ Blank gh ∧ k.ValidX ∧ (k.quoted = false → StartsBoundary (g1 ++ o.text)) ∧
     h.Valid ∧ h.quoted = false ∧ StartsBoundary (jrenderV body ++ (jrenderF rest ++ after)) ∧
     body.isContainer ∧ JValidV body (jrenderF rest ++ after) ∧ JValidF rest after
+  | .paramVal g0 isU name g1 val g2 rest, after =>
+    Blank g0 ∧ Blank g1 ∧ Blank g2 ∧ IsParamName name ∧ val.Valid ∧ val.quoted = false ∧
+    StartsBoundary (g2 ++ 93 :: (jrenderF rest ++ after)) ∧ JValidF rest after
+  | .paramObj g0 isU name g1 k g2 o v inner gc rest, after =>
+    Blank g0 ∧ Blank g1 ∧ Blank g2 ∧ Blank gc ∧ IsParamName name ∧ k.Valid ∧ k.quoted = false ∧
+    StartsBoundary (g2 ++ o.text) ∧
+    JValidV v (jrenderF inner ++ (gc ++ 93 :: (jrenderF rest ++ after))) ∧
+    JValidF inner (gc ++ 93 :: (jrenderF rest ++ after)) ∧ JValidF rest after
 def JValidVs : JVals → Bytes → Prop
   | .nil, _ => True
   | .cons v rest, after => JValidV v (jrenderVs rest ++ after) ∧ JValidVs rest after
@@ -427,6 +451,8 @@ def jcntF : JFields → Nat
   | .consImp _ _ v rest => (1 + jcntV v) + jcntF rest
   | .ghost _ _ rest => jcntF rest
   | .consHdr _ _ _ o _ _ body rest => (1 + o.toks.length + (1 + jcntV body)) + jcntF rest
+  | .paramVal _ _ _ _ _ _ rest => 2 + jcntF rest
+  | .paramObj _ _ _ _ _ _ o v inner _ rest => (3 + (1 + o.toks.length + jcntV v) + jcntF inner) + jcntF rest
 def jcntVs : JVals → Nat
   | .nil => 0
   | .cons v rest => jcntV v + jcntVs rest
@@ -480,6 +506,21 @@ def jtapeF : JFields → Nat → Bytes → List Tok
       [.header ⟨h.bytes.length + Z.length, h.bytes⟩] ++
       jtapeV body (base + 1 + o.toks.length + 1) (jrenderF rest ++ after) ++
       jtapeF rest (base + (1 + o.toks.length + (1 + jcntV body))) after
+  | .paramVal _ isU name g1 val g2 rest, base, after =>
+    let R := jrenderF rest ++ after
+    [paramTok isU ⟨(name ++ 93 :: (g1 ++ (val.text ++ (g2 ++ 93 :: R)))).length, name⟩,
+      .unquoted ⟨(val.text ++ (g2 ++ 93 :: R)).length, val.bytes⟩] ++ jtapeF rest (base + 2) after
+  | .paramObj _ isU name g1 k g2 o v inner gc rest, base, after =>
+    let R := jrenderF rest ++ after
+    let tail := jrenderF inner ++ (gc ++ 93 :: R)
+    let Y := g1 ++ (k.text ++ (g2 ++ (o.text ++ (jrenderV v ++ tail))))
+    [paramTok isU ⟨(name ++ 93 :: Y).length, name⟩,
+      .object (base + 2 + (1 + o.toks.length + jcntV v) + jcntF inner) false,
+      .unquoted ⟨(k.text ++ (g2 ++ (o.text ++ (jrenderV v ++ tail)))).length, k.bytes⟩] ++ o.toks ++
+      jtapeV v (base + 3 + o.toks.length) tail ++
+      jtapeF inner (base + 2 + (1 + o.toks.length + jcntV v)) (gc ++ 93 :: R) ++
+      [.endTok (base + 1)] ++
+      jtapeF rest (base + ((3 + (1 + o.toks.length + jcntV v) + jcntF inner))) after
 def jtapeVs : JVals → Nat → Bytes → List Tok
   | .nil, _, _ => []
   | .cons v rest, base, after =>
@@ -502,6 +543,8 @@ def jstepsF : JFields → Nat
   | .consImp _ _ v rest => 2 + jstepsV v + jstepsF rest
   | .ghost _ _ rest => 1 + jstepsF rest
   | .consHdr _ _ _ _ _ _ body rest => 3 + jstepsV body + jstepsF rest
+  | .paramVal _ _ _ _ _ _ rest => 1 + jstepsF rest
+  | .paramObj _ _ _ _ _ _ _ v inner _ rest => 2 + jstepsV v + jstepsF inner + 1 + jstepsF rest
 def jstepsVs : JVals → Nat
   | .nil => 0
   | .cons v rest => jstepsV v + jstepsVs rest
@@ -526,6 +569,10 @@ inductive KVal
 inductive KFields
   | nil
   | cons (key : Scal) (op : Op) (v : KVal) (rest : KFields)
+  /-- parameter block, value form -/
+  | paramVal (isU : Bool) (name : Bytes) (val : Scal) (rest : KFields)
+  /-- parameter block, object form -/
+  | paramObj (isU : Bool) (name : Bytes) (fs : KFields) (rest : KFields)
 inductive KVals
   | nil
   | cons (v : KVal) (rest : KVals)
@@ -547,6 +594,10 @@ def kcontentF : JFields → KFields
   | .consImp _ k v rest => .cons k .eq (kcontentV v) (kcontentF rest)
   | .ghost _ _ rest => kcontentF rest
   | .consHdr _ k _ o _ h body rest => .cons k o (.hdr h.bytes (kcontentV body)) (kcontentF rest)
+  | .paramVal _ isU name _ val _ rest => .paramVal isU name val (kcontentF rest)
+  | .paramObj _ isU name _ k _ o v inner _ rest =>
+    -- (the first key of a parameter block is read as an unquoted scalar whatever it looks like)
+    .paramObj isU name (.cons ⟨false, k.bytes⟩ o (kcontentV v) (kcontentF inner)) (kcontentF rest)
 def kcontentVs : JVals → KVals
   | .nil => .nil
   | .cons v rest => .cons (kcontentV v) (kcontentVs rest)
@@ -563,6 +614,8 @@ def kcntV : KVal → Nat
 def kcntF : KFields → Nat
   | .nil => 0
   | .cons _ o v rest => (1 + o.toks.length + kcntV v) + kcntF rest
+  | .paramVal _ _ _ rest => 2 + kcntF rest
+  | .paramObj _ _ fs rest => (3 + kcntF fs) + kcntF rest
 def kcntVs : KVals → Nat
   | .nil => 0
   | .cons v rest => kcntV v + kcntVs rest
@@ -585,6 +638,11 @@ def ktapeF : KFields → Nat → List Tok
   | .cons k o v rest, base =>
     [(k.tok []).erase] ++ o.toks ++ ktapeV v (base + 1 + o.toks.length) ++
       ktapeF rest (base + (1 + o.toks.length + kcntV v))
+  | .paramVal isU name val rest, base =>
+    [paramTok isU ⟨0, name⟩, .unquoted ⟨0, val.bytes⟩] ++ ktapeF rest (base + 2)
+  | .paramObj isU name fs rest, base =>
+    [paramTok isU ⟨0, name⟩, .object (base + 2 + kcntF fs) false] ++ ktapeF fs (base + 2) ++
+      [.endTok (base + 1)] ++ ktapeF rest (base + (3 + kcntF fs))
 def ktapeVs : KVals → Nat → List Tok
   | .nil, _ => []
   | .cons v rest, base => ktapeV v base ++ ktapeVs rest (base + kcntV v)
